@@ -261,10 +261,12 @@ namespace smt
                   { return variable(l0) < variable(l1); });
         lit p;
         size_t lits_size = 0;
+        bool found_true = false;
         std::string s_expr = "amo";
         for (auto it0 = ls.cbegin(); it0 != ls.cend(); ++it0)
             if (value(*it0) == True)
             {
+                found_true = true;
                 for (auto it1 = it0 + 1; it1 != ls.cend(); ++it1)
                 {
                     if (value(*it1) == True || *it1 == !p)
@@ -285,6 +287,13 @@ namespace smt
                 ls[lits_size++] = p;
             }
         ls.resize(lits_size);
+
+        if (found_true)
+        { // one of the literals is already true: all the other ones must be false..
+            for (auto &l : ls)
+                l = !l;
+            return new_conj(std::move(ls));
+        }
 
         if (ls.empty() || ls.size() == 1) // an empty or a singleton at-most-one is assumed to be satisfied..
             return TRUE_lit;
@@ -336,10 +345,12 @@ namespace smt
                   { return variable(l0) < variable(l1); });
         lit p;
         size_t j = 0;
+        bool found_true = false;
         std::string s_expr = "^";
         for (auto it0 = ls.cbegin(); it0 != ls.cend(); ++it0)
             if (value(*it0) == True)
             {
+                found_true = true;
                 for (auto it1 = it0 + 1; it1 != ls.cend(); ++it1)
                 {
                     if (value(*it1) == True || *it1 == !p)
@@ -360,6 +371,13 @@ namespace smt
                 ls[j++] = p;
             }
         ls.resize(j);
+
+        if (found_true)
+        { // one of the literals is already true: all the other ones must be false..
+            for (auto &l : ls)
+                l = !l;
+            return new_conj(std::move(ls));
+        }
 
         if (ls.empty()) // an empty exact-one is assumed to be unsatisfable..
             return FALSE_lit;
